@@ -503,8 +503,18 @@ Definition kml_value (v : json) : res json :=
        | _ => Err OtherError
        end.
 
-Definition kml_data (p : dict) : res dict :=
-  mapM (fun kv => match kml_value (snd kv) with Ok v => Ok (fst kv, v) | Err e => Err e end) p.
+(* ExtendedData(elements=[Data(name=k, value=v) ...]): an element whose value became None is
+   falsy and fastkml drops it from the element list *)
+Fixpoint kml_data (p : dict) : res dict :=
+  match p with
+  | [] => Ok []
+  | (k, v) :: p' =>
+      match kml_value v with
+      | Err e => Err e
+      | Ok JNull => kml_data p'
+      | Ok w => match kml_data p' with Ok d => Ok ((k, w) :: d) | Err e => Err e end
+      end
+  end.
 
 Record placemark := mkpm { pm_geo : json; pm_times : option ktime; pm_data : dict }.
 
